@@ -31,6 +31,16 @@ MPolyV(e) ==
   ELSE IF \E i \in DOMAIN F : (\E k \in DOMAIN e.c.q : InteriorOverlap(P(i), e.c.q[k])) /\ i \notin got THEN "reject:overlapping_tile_not_returned"
   ELSE IF \E i \in got : \A k \in DOMAIN e.c.q : StrictlyDisjoint(P(i), e.c.q[k]) THEN "reject:returned_tile_is_disjoint_from_the_query"
   ELSE "ok"
+\* a polygon far smaller than a pixel around a point strictly inside one tile: exactly that tile
+TinyV(e) ==
+  LET F == FootTab(e.foot) got == Returned(e) p == e.c.p
+      Inside(i) == F[i][1] < p[1] /\ p[1] < F[i][3] /\ F[i][2] < p[2] /\ p[2] < F[i][4] IN
+  IF Len(e.out) # Cardinality(got) THEN "reject:tile_returned_twice"
+  ELSE IF ~(got \subseteq DOMAIN F) THEN "reject:harness_window_too_small"
+  ELSE IF \E i \in DOMAIN F : Inside(i) /\ i \notin got THEN "reject:overlapping_tile_not_returned"
+  ELSE IF \E i \in got : ~Inside(i) THEN "reject:returned_tile_does_not_overlap_the_query"
+  ELSE IF ~\E i \in DOMAIN F : Inside(i) THEN "reject:harness_window_too_small"
+  ELSE "ok"
 PolyV(e) ==
   LET F == FootTab(e.foot) got == Returned(e) P(i) == RectPoly(F[i][1], F[i][2], F[i][3], F[i][4]) IN
   IF Len(e.out) # Cardinality(got) THEN "reject:tile_returned_twice"
@@ -47,7 +57,7 @@ WebV(e) == IF \E k \in DOMAIN e.tiles : LET t == e.tiles[k] IN ~(t[3] = t[1] /\ 
            ELSE IF e.corners # <<0, 0, P2(e.c.z) - 1, P2(e.c.z) - 1>> THEN "reject:not_2^z_tiles_per_side"
            ELSE IF e.npix # <<256, 256>> THEN "reject:web_tile_shape" ELSE "ok"
 Verdict(e) == IF e.outcome # "ok" THEN "reject:raised_" \o e.outcome
-              ELSE CASE e.c.op = "spec" -> SpecV(e) [] e.c.op = "bbox" -> BBoxV(e) [] e.c.op = "poly" -> PolyV(e) [] e.c.op = "mpoly" -> MPolyV(e)
+              ELSE CASE e.c.op = "spec" -> SpecV(e) [] e.c.op = "bbox" -> BBoxV(e) [] e.c.op = "poly" -> PolyV(e) [] e.c.op = "mpoly" -> MPolyV(e) [] e.c.op = "tinypoly" -> TinyV(e)
                      [] e.c.op = "sample" -> SampleV(e) [] e.c.op = "web" -> WebV(e)
 VARIABLE l
 Init == l = 1
